@@ -21,9 +21,9 @@ ASSUMPTIONS = ["the harness triggers everything it observes, so trigger order is
                "conditions and resources are excluded from C01 programs (their triggers are internal); they are "
                "covered by the spec-kernel comparison in C05/C06/C07"]
 FLOORS = {"quick": {"agenda_pops": 20000, "mixed_class_instants": 500, "same_class_triples": 500,
-                    "spec_compared": 1000, "stops_reached": 100, "negative_delay_probes": 10},
+                    "spec_compared": 1000, "stops_reached": 100, "negative_delay_probes": 10, "long_history_cases": 4},
           "thorough": {"agenda_pops": 400000, "mixed_class_instants": 10000, "same_class_triples": 10000,
-                       "spec_compared": 20000, "stops_reached": 2000, "negative_delay_probes": 10}}
+                       "spec_compared": 20000, "stops_reached": 2000, "negative_delay_probes": 10, "long_history_cases": 48}}
 
 PROFILE = {"weights": {"timeout": 6, "zero": 2, "wait": 2, "succeed": 2, "fail": 0.5, "spawn": 2, "join": 2,
                        "interrupt": 3, "cb": 0.5, "cond": 0},
@@ -128,6 +128,22 @@ def negative_delay_probes(ctx):
                           {"delay": repr(d), "exc": repr(e)}, {"probe": "zero_delay"})
 
 
+def long_history_case(rng):
+    """one environment that schedules > 65536 events while old ordinary events stay pending, then urgent
+    occurrences (process start, interrupt, numeric stop) are triggered at the very instant those are due"""
+    n = rng.choice([66000, 70000, 90000, 140000])
+    T = 128
+    tick = T / (n + 1000)
+    scripts = [
+        {"ops": [["timeout", T], ["spawn", 3], ["interrupt", 1], ["timeout", 0]], "on_fail": "catch", "on_int": "next", "end": None},
+        {"ops": [["timeout", T], ["timeout", 1]], "on_fail": "catch", "on_int": "next", "end": None},
+        {"ops": [["timeout", tick]] * n, "on_fail": "catch", "on_int": "next", "end": None},
+        {"ops": [["timeout", 0], ["timeout", 1]], "on_fail": "catch", "on_int": "next", "end": ["ret", "child"]},
+    ]
+    prog = {"flavour": "float", "t0": 0, "nev": 0, "scripts": scripts, "top": [0, 1, 2]}
+    return {"program": prog, "stops": [T] if rng.random() < 0.5 else [], "long_history": n}
+
+
 def make_case(rng):
     prog = kern.gen_program(rng, PROFILE)
     K = kern.RealK.load()
@@ -141,6 +157,18 @@ def run_shard(ctx):
         negative_delay_probes(ctx)
     else:
         ctx.count("negative_delay_probes", 0)
+    for j in range(1 if ctx.tier == "quick" else 3):
+        case = long_history_case(ctx.rng("long", j))
+        kern.Runner.STEP_CAP, cap0 = 10 ** 7, kern.Runner.STEP_CAP
+        try:
+            viol, nt = one_case(ctx, case["program"], case["stops"])
+        finally:
+            kern.Runner.STEP_CAP = cap0
+        ctx.count("long_history_cases")
+        slim = {"long_history": case["long_history"], "stops": case["stops"], "regen": ["long", j]}
+        for m, what, wit in viol:
+            ctx.violation(mech_name(m, wit) + "[after >65536 scheduled events]", what, wit, slim)
+        ctx.case_done(slim, True)
     for i in ctx.cases(ncases(ctx.tier)):
         case = make_case(ctx.rng(i))
         viol, nt = one_case(ctx, case["program"], case["stops"])
@@ -156,6 +184,9 @@ def run_shard(ctx):
 def replay(ctx, case):
     if "probe" in case:
         return negative_delay_probes(ctx)
+    if "long_history" in case:
+        case = long_history_case(ctx.rng(*case["regen"]))
+        kern.Runner.STEP_CAP = 10 ** 7
     viol, _ = one_case(ctx, case["program"], case["stops"])
     viol += kern.bare_spec_violation(case["program"])[0]
     for m, what, wit in viol:
